@@ -204,7 +204,8 @@ def tiny(wd, rng, page_size=1024, tag="tiny"):
 DFLT_TYPES = ["", "TEXT", "VARCHAR(10)", "CLOB", "INTEGER", "INT", "BIGINT", "REAL", "DOUBLE", "FLOAT", "NUMERIC", "DECIMAL(10,2)", "BLOB",
               "DATETIME", "BOOLEAN", "CHARINT", "STRING", "XBLOBY", "REALTEXT"]
 DFLT_VALUES = ["5", "-3", "0", "9223372036854775807", "'7'", "'7.0'", "'7.5'", "'abc'", "' 12 '", "'1e3'", "'-0'", "'0x10'", "'9223372036854775808'",
-               "''", "'1.'", "'.5'", "'1e'", "'+4'", "NULL", "'12abc'", "'1e400'", "true", "false", "'true'", "abc", "TRUE"]
+               "''", "'1.'", "'.5'", "'1e'", "'+4'", "NULL", "'12abc'", "'1e400'", "true", "false", "'true'", "abc", "TRUE",
+               "010", "-007", "00", "+5", "0x10", "-0"]
 
 
 def defaults_db(wd, rng, page_size=1024, tag="dflt"):
